@@ -1974,8 +1974,16 @@ func (s *RegionRequestSender) onRegionError(
 			}
 			return false, nil
 		} else {
-			// don't backoff if a new leader is returned.
 			s.regionCache.UpdateLeader(ctx.Region, notLeader.GetLeader(), ctx.AccessIdx)
+			// Without a replica selector (TiFlash and TiDB endpoints) nothing counts the attempts, and the store
+			// that answered is chosen again whoever the TiKV leader is: back off, otherwise a store that keeps
+			// answering NotLeader with a leader hint is retried forever without consuming any back-off budget.
+			if err = bo.Backoff(
+				retry.BoRegionScheduling,
+				newBackoffErrWithRPCContext(fmt.Sprintf("not leader: %v", notLeader), ctx),
+			); err != nil {
+				return false, err
+			}
 			return true, nil
 		}
 	}
